@@ -16,6 +16,11 @@
    (euclidean_distance = sqrt(euclid_sq) * 2^-10; the square root itself and binary64 rounding are
    outside the model).
 
+   Two places where the code as it stands violates the property are modelled in both forms, the
+   harness probing the working tree for which one it has: `policy` (missing edge lengths in
+   _get_length_diffs: Current | ZeroBoth | RefuseBoth) and `mg` (collapse_basal_bifurcation dropping
+   or keeping a removed length, see add_len).
+
    Object identity: nodes (and their edges: an Edge is never re-seated) are named by the `id` field
    of Model/Tree.v trees; a Bipartition is represented by its split mask (the only thing __hash__
    and __eq__ look at). *)
@@ -72,11 +77,15 @@ Definition diff_count (a b : list Z) : Z :=
 (* ------------------------------------------------------------------------------------------ *)
 (* Structure: what encode_bipartitions() does to the tree itself *)
 
-(* to_keep.edge.length += to_del_edge.length   inside try/except: a None on either side leaves
-   to_keep's length as it was *)
-Definition add_len (keep del : option Z) : option Z :=
+(* collapse_basal_bifurcation: to_keep.edge.length += to_del_edge.length   inside try/except: a None
+   on either side leaves to_keep's length as it was - so a removed length is DROPPED when the kept edge
+   has none (finding basal-collapse-drops-length-onto-missing).  mg = true is the repaired form (the
+   removed length is taken over, as unifurcation suppression does); the harness finds out which form
+   the working tree has by probing it. *)
+Definition add_len (mg : bool) (keep del : option Z) : option Z :=
   match keep, del with
   | Some x, Some y => Some (x + y)
+  | None, Some y => if mg then Some y else None
   | _, _ => keep
   end.
 
@@ -94,13 +103,13 @@ Definition set_len (t : tree) (e : option Z) : tree :=
 Definition nkids (t : tree) : nat := length (t_kids t).
 
 (* Tree.collapse_basal_bifurcation(): new tree and the node taken out (id, its edge length) *)
-Definition collapse_basal (t : tree) : tree * option (Z * option Z) :=
+Definition collapse_basal (mg : bool) (t : tree) : tree * option (Z * option Z) :=
   match t with
   | T i x l e [c0; c1] =>
     if Nat.leb 2 (nkids c1) then
-      (T i x l e (set_len c0 (add_len (t_len c0) (t_len c1)) :: t_kids c1), Some (t_id c1, t_len c1))
+      (T i x l e (set_len c0 (add_len mg (t_len c0) (t_len c1)) :: t_kids c1), Some (t_id c1, t_len c1))
     else if Nat.leb 2 (nkids c0) then
-      (T i x l e (t_kids c0 ++ [set_len c1 (add_len (t_len c1) (t_len c0))]), Some (t_id c0, t_len c0))
+      (T i x l e (t_kids c0 ++ [set_len c1 (add_len mg (t_len c1) (t_len c0))]), Some (t_id c0, t_len c0))
     else (t, None)
   | _ => (t, None)
   end.
@@ -132,22 +141,22 @@ Definition struct := (tree * option bool)%type.
 (* step 1 of encode_bipartitions: `collapse_unrooted_basal_bifurcation and not self._is_rooted and
    len(seed_node._child_nodes) == 2` -> collapse_basal_bifurcation() (sets is_rooted = False only
    when it really collapses) *)
-Definition basal_step (s : struct) : struct * list (Z * option Z) :=
+Definition basal_step (mg : bool) (s : struct) : struct * list (Z * option Z) :=
   let '(t, r) := s in
   if negb (is_true r) && Nat.eqb (nkids t) 2 then
-    match collapse_basal t with
+    match collapse_basal mg t with
     | (t', Some d) => ((t', Some false), [d])
     | (_, None) => (s, [])
     end
   else (s, []).
 
 (* the structure encode_bipartitions() leaves behind *)
-Definition normalise (s : struct) : struct :=
-  let s1 := fst (basal_step s) in (suppress (fst s1), snd s1).
+Definition normalise (mg : bool) (s : struct) : struct :=
+  let s1 := fst (basal_step mg s) in (suppress (fst s1), snd s1).
 
 (* nodes (edges) that encode_bipartitions() takes out of the tree *)
-Definition removed_by_encode (s : struct) : list (Z * option Z) :=
-  let '(s1, d) := basal_step s in d ++ suppressed (fst s1).
+Definition removed_by_encode (mg : bool) (s : struct) : list (Z * option Z) :=
+  let '(s1, d) := basal_step mg s in d ++ suppressed (fst s1).
 
 (* ------------------------------------------------------------------------------------------ *)
 (* Bitmasks *)
@@ -218,12 +227,12 @@ Definition ebip_update (new : list (Z * Z)) (old : list (Z * Z)) : list (Z * Z) 
   map (fun mi => (snd mi, fst mi)) new ++ old.
 
 (* Tree.encode_bipartitions() *)
-Definition encode_st (acc : acc_map) (st : tstate) : res tstate :=
+Definition encode_st (mg : bool) (acc : acc_map) (st : tstate) : res tstate :=
   if negb (taxa_known acc (ts_tree st)) then Err KeyErr else
   let s := ts_struct st in
-  let s' := normalise s in
+  let s' := normalise mg s in
   let pairs := enc_pairs acc s' in
-  let gone := map (fun d => (fst d, (snd d, true))) (removed_by_encode s) in
+  let gone := map (fun d => (fst d, (snd d, true))) (removed_by_encode mg s) in
   Ok (mkTS (ts_ns st) (fst s') (snd s') (gone ++ ts_det st)
            (ebip_update pairs (ts_ebip st))
            (negb (Z.eqb (lmask acc (fst s')) 0))
@@ -254,11 +263,11 @@ Fixpoint build_bmap (ebip : list (Z * Z)) (ids : list Z) (d : list (Z * Z)) : re
   end.
 
 (* Tree.bipartition_edge_map (property _get_bipartition_edge_map) *)
-Definition get_bmap (acc : acc_map) (st : tstate) : res (list (Z * Z)) * tstate :=
+Definition get_bmap (mg : bool) (acc : acc_map) (st : tstate) : res (list (Z * Z)) * tstate :=
   if negb (falsy (ts_bmap st)) then
     (match ts_bmap st with Some m => Ok m | None => Err OtherErr end, st)
   else
-    match (if falsy (ts_enc st) then encode_st acc st else Ok st) with
+    match (if falsy (ts_enc st) then encode_st mg acc st else Ok st) with
     | Err e => (Err e, st)
     | OutOfFuel => (OutOfFuel, st)
     | Ok st1 =>
@@ -302,9 +311,9 @@ Definition wbind {A B} (r : wres A) (f : A -> world -> wres B) : wres B :=
   | (OutOfFuel, w) => (OutOfFuel, w)
   end.
 
-Definition encode_at (w : world) (a : nat) : wres unit :=
+Definition encode_at (mg : bool) (w : world) (a : nat) : wres unit :=
   match get_t w a with
-  | Ok st => match encode_st (w_acc w) st with
+  | Ok st => match encode_st mg (w_acc w) st with
              | Ok st' => (Ok tt, set_t w a st')
              | Err e => (Err e, w)
              | OutOfFuel => (OutOfFuel, w)
@@ -323,15 +332,15 @@ Definition enc_is_none (w : world) (a : nat) : bool :=
      if tree1.taxon_namespace is not tree2.taxon_namespace: raise TaxonNamespaceIdentityError (a ValueError)
      if not is_bipartitions_updated: tree1.encode_bipartitions(); tree2.encode_bipartitions()
      else: encode each tree whose bipartition_encoding is None *)
-Definition prologue (w : world) (a b : nat) (upd : bool) : wres unit :=
+Definition prologue (mg : bool) (w : world) (a b : nat) (upd : bool) : wres unit :=
   match get_t w a, get_t w b with
   | Ok sa, Ok sb =>
     if negb (Z.eqb (ts_ns sa) (ts_ns sb)) then (Err ValueErr, w)
     else if negb upd then
-      wbind (encode_at w a) (fun _ w1 => encode_at w1 b)
+      wbind (encode_at mg w a) (fun _ w1 => encode_at mg w1 b)
     else
-      wbind (if enc_is_none w a then encode_at w a else (Ok tt, w))
-            (fun _ w1 => if enc_is_none w1 b then encode_at w1 b else (Ok tt, w1))
+      wbind (if enc_is_none w a then encode_at mg w a else (Ok tt, w))
+            (fun _ w1 => if enc_is_none w1 b then encode_at mg w1 b else (Ok tt, w1))
   | Err e, _ => (Err e, w)
   | _, Err e => (Err e, w)
   | _, _ => (OutOfFuel, w)
@@ -349,8 +358,8 @@ Definition enc_at (w : world) (a : nat) : res (list Z * bool) :=
   end.
 
 (* false_positives_and_negatives(reference = a, comparison = b) *)
-Definition do_fpfn (w : world) (a b : nat) (upd : bool) : wres (Z * Z) :=
-  wbind (prologue w a b upd) (fun _ w1 =>
+Definition do_fpfn (mg : bool) (w : world) (a b : nat) (upd : bool) : wres (Z * Z) :=
+  wbind (prologue mg w a b upd) (fun _ w1 =>
     match enc_at w1 a, enc_at w1 b with
     | Ok (ra, ha), Ok (cb, hb) =>
       if (negb ha && negb (is_nil ra)) || (negb hb && negb (is_nil cb)) then (Err AssertErr, w1)
@@ -361,12 +370,12 @@ Definition do_fpfn (w : world) (a b : nat) (upd : bool) : wres (Z * Z) :=
     end).
 
 (* symmetric_difference = unweighted_robinson_foulds_distance = Tree.symmetric_difference *)
-Definition do_symdiff (w : world) (a b : nat) (upd : bool) : wres Z :=
-  wbind (do_fpfn w a b upd) (fun t w1 => (Ok (fst t + snd t), w1)).
+Definition do_symdiff (mg : bool) (w : world) (a b : nat) (upd : bool) : wres Z :=
+  wbind (do_fpfn mg w a b upd) (fun t w1 => (Ok (fst t + snd t), w1)).
 
 (* find_missing_bipartitions(reference = a, comparison = b): list membership uses __eq__ only *)
-Definition do_missing (w : world) (a b : nat) (upd : bool) : wres (list Z) :=
-  wbind (prologue w a b upd) (fun _ w1 =>
+Definition do_missing (mg : bool) (w : world) (a b : nat) (upd : bool) : wres (list Z) :=
+  wbind (prologue mg w a b upd) (fun _ w1 =>
     match enc_at w1 a, enc_at w1 b with
     | Ok (ra, _), Ok (cb, _) => (Ok (filter (fun m => negb (memz m cb)) ra), w1)
     | Err e, _ => (Err e, w1)
@@ -453,9 +462,9 @@ Section Loops.
     loop2 m1 (snd x) (fst x).
 End Loops.
 
-Definition bmap_at (w : world) (a : nat) : wres (list (Z * Z)) :=
+Definition bmap_at (mg : bool) (w : world) (a : nat) : wres (list (Z * Z)) :=
   match get_t w a with
-  | Ok st => let '(r, st') := get_bmap (w_acc w) st in (r, set_t w a st')
+  | Ok st => let '(r, st') := get_bmap mg (w_acc w) st in (r, set_t w a st')
   | Err e => (Err e, w)
   | OutOfFuel => (OutOfFuel, w)
   end.
@@ -464,10 +473,10 @@ Definition info_at (w : world) (a : nat) (i : Z) : res (option Z * bool) :=
   do st <- get_t w a ;; edge_info (w_acc w) st i.
 
 (* _get_length_diffs(tree1 = a, tree2 = b) *)
-Definition do_length_diffs (p : policy) (w : world) (a b : nat) (upd : bool) : wres (list (Z * Z)) :=
-  wbind (prologue w a b upd) (fun _ w1 =>
-  wbind (bmap_at w1 b) (fun m2 w2 =>          (* dict(tree2.bipartition_edge_map) *)
-  wbind (bmap_at w2 a) (fun m1 w3 =>          (* tree1.bipartition_edge_map *)
+Definition do_length_diffs (mg : bool) (p : policy) (w : world) (a b : nat) (upd : bool) : wres (list (Z * Z)) :=
+  wbind (prologue mg w a b upd) (fun _ w1 =>
+  wbind (bmap_at mg w1 b) (fun m2 w2 =>          (* dict(tree2.bipartition_edge_map) *)
+  wbind (bmap_at mg w2 a) (fun m1 w3 =>          (* tree1.bipartition_edge_map *)
     (length_diffs p (info_at w3 a) (info_at w3 b) m1 m2, w3)))).
 
 Definition sum_abs (l : list (Z * Z)) : Z := fold_right (fun d s => Z.abs (fst d - snd d) + s) 0 l.
@@ -475,12 +484,12 @@ Definition sum_sq (l : list (Z * Z)) : Z :=
   fold_right (fun d s => (fst d - snd d) * (fst d - snd d) + s) 0 l.
 
 (* weighted_robinson_foulds_distance = robinson_foulds_distance = Tree.robinson_foulds_distance *)
-Definition do_wrf (p : policy) (w : world) (a b : nat) (upd : bool) : wres Z :=
-  wbind (do_length_diffs p w a b upd) (fun l w1 => (Ok (sum_abs l), w1)).
+Definition do_wrf (mg : bool) (p : policy) (w : world) (a b : nat) (upd : bool) : wres Z :=
+  wbind (do_length_diffs mg p w a b upd) (fun l w1 => (Ok (sum_abs l), w1)).
 
 (* euclidean_distance ** 2 *)
-Definition do_euclid_sq (p : policy) (w : world) (a b : nat) (upd : bool) : wres Z :=
-  wbind (do_length_diffs p w a b upd) (fun l w1 => (Ok (sum_sq l), w1)).
+Definition do_euclid_sq (mg : bool) (p : policy) (w : world) (a b : nat) (upd : bool) : wres Z :=
+  wbind (do_length_diffs mg p w a b upd) (fun l w1 => (Ok (sum_sq l), w1)).
 
 (* ------------------------------------------------------------------------------------------ *)
 (* Operations of a case *)
@@ -509,7 +518,7 @@ Inductive out :=
 Definition to_out {A} (f : A -> out) (r : res A) : out :=
   match r with Ok a => f a | Err e => OErr e | OutOfFuel => OFuel end.
 
-Definition step (p : policy) (w : world) (o : op) : out * world :=
+Definition step (mg : bool) (p : policy) (w : world) (o : op) : out * world :=
   match o with
   | OpEdit a t r det er br =>
     match get_t w a with
@@ -520,17 +529,17 @@ Definition step (p : policy) (w : world) (o : op) : out * world :=
     | OutOfFuel => (OFuel, w)
     end
   | OpEncode a =>
-    let '(r, w1) := encode_at w a in
+    let '(r, w1) := encode_at mg w a in
     (match r with
      | Ok _ => to_out (fun x => OMasks (fst x)) (enc_at w1 a)
      | Err e => OErr e
      | OutOfFuel => OFuel
      end, w1)
-  | OpFpFn a b upd => let '(r, w1) := do_fpfn w a b upd in (to_out (fun x => OPair (fst x) (snd x)) r, w1)
-  | OpSymDiff a b upd => let '(r, w1) := do_symdiff w a b upd in (to_out OInt r, w1)
-  | OpMissing a b upd => let '(r, w1) := do_missing w a b upd in (to_out OMasks r, w1)
-  | OpWRF a b upd => let '(r, w1) := do_wrf p w a b upd in (to_out OInt r, w1)
-  | OpEuclid a b upd => let '(r, w1) := do_euclid_sq p w a b upd in (to_out OInt r, w1)
+  | OpFpFn a b upd => let '(r, w1) := do_fpfn mg w a b upd in (to_out (fun x => OPair (fst x) (snd x)) r, w1)
+  | OpSymDiff a b upd => let '(r, w1) := do_symdiff mg w a b upd in (to_out OInt r, w1)
+  | OpMissing a b upd => let '(r, w1) := do_missing mg w a b upd in (to_out OMasks r, w1)
+  | OpWRF a b upd => let '(r, w1) := do_wrf mg p w a b upd in (to_out OInt r, w1)
+  | OpEuclid a b upd => let '(r, w1) := do_euclid_sq mg p w a b upd in (to_out OInt r, w1)
   end.
 
 (* ------------------------------------------------------------------------------------------ *)
@@ -555,6 +564,7 @@ Definition expect := (out * list (nat * (tree * option bool)))%type.
 
 Record case := mkCase {
   c_policy : policy;
+  c_mg : bool;
   c_acc : acc_map;
   c_trees : list (Z * (tree * option bool));     (* namespace id, structure *)
   c_ops : list op;
@@ -585,31 +595,31 @@ Fixpoint structs_ok (i : nat) (before after : list tstate) (ch : list (nat * str
 
 Definition is_edit (o : op) : bool := match o with OpEdit _ _ _ _ _ _ => true | _ => false end.
 
-Fixpoint run_ok (p : policy) (w : world) (ops : list op) (ex : list expect) : bool :=
+Fixpoint run_ok (mg : bool) (p : policy) (w : world) (ops : list op) (ex : list expect) : bool :=
   match ops, ex with
   | [], [] => true
   | o :: ro, (eo, ch) :: re =>
-    let '(r, w1) := step p w o in
+    let '(r, w1) := step mg p w o in
     out_eqb r eo
     && (if is_edit o then true else structs_ok 0 (w_trees w) (w_trees w1) ch)
-    && run_ok p w1 ro re
+    && run_ok mg p w1 ro re
   | _, _ => false
   end.
 
 Definition init_world (c : case) : world :=
   mkW (c_acc c) (map (fun x => fresh (fst x) (snd x)) (c_trees c)).
 
-Definition case_ok (c : case) : bool := run_ok (c_policy c) (init_world c) (c_ops c) (c_expect c).
+Definition case_ok (c : case) : bool := run_ok (c_mg c) (c_policy c) (init_world c) (c_ops c) (c_expect c).
 
 (* diagnostics for replays: what the model computes *)
-Fixpoint run_show (p : policy) (w : world) (ops : list op) : list (out * list struct) :=
+Fixpoint run_show (mg : bool) (p : policy) (w : world) (ops : list op) : list (out * list struct) :=
   match ops with
   | [] => []
-  | o :: ro => let '(r, w1) := step p w o in (r, map ts_struct (w_trees w1)) :: run_show p w1 ro
+  | o :: ro => let '(r, w1) := step mg p w o in (r, map ts_struct (w_trees w1)) :: run_show mg p w1 ro
   end.
 
 Definition case_run (c : case) : list (out * list struct) :=
-  run_show (c_policy c) (init_world c) (c_ops c).
+  run_show (c_mg c) (c_policy c) (init_world c) (c_ops c).
 
 (* ------------------------------------------------------------------------------------------ *)
 (* The functions as a client sees them: two (three) freshly built trees over one namespace,
@@ -618,12 +628,12 @@ Definition case_run (c : case) : list (out * list struct) :=
 
 Definition world2 (acc : acc_map) (s1 s2 : struct) : world := mkW acc [fresh 0 s1; fresh 0 s2].
 
-Definition fpfn (acc : acc_map) (s1 s2 : struct) : res (Z * Z) := fst (do_fpfn (world2 acc s1 s2) 0 1 false).
-Definition rf (acc : acc_map) (s1 s2 : struct) : res Z := fst (do_symdiff (world2 acc s1 s2) 0 1 false).
-Definition missing (acc : acc_map) (s1 s2 : struct) : res (list Z) := fst (do_missing (world2 acc s1 s2) 0 1 false).
-Definition wrf (p : policy) (acc : acc_map) (s1 s2 : struct) : res Z := fst (do_wrf p (world2 acc s1 s2) 0 1 false).
-Definition euclid_sq (p : policy) (acc : acc_map) (s1 s2 : struct) : res Z :=
-  fst (do_euclid_sq p (world2 acc s1 s2) 0 1 false).
+Definition fpfn (mg : bool) (acc : acc_map) (s1 s2 : struct) : res (Z * Z) := fst (do_fpfn mg (world2 acc s1 s2) 0 1 false).
+Definition rf (mg : bool) (acc : acc_map) (s1 s2 : struct) : res Z := fst (do_symdiff mg (world2 acc s1 s2) 0 1 false).
+Definition missing (mg : bool) (acc : acc_map) (s1 s2 : struct) : res (list Z) := fst (do_missing mg (world2 acc s1 s2) 0 1 false).
+Definition wrf (mg : bool) (p : policy) (acc : acc_map) (s1 s2 : struct) : res Z := fst (do_wrf mg p (world2 acc s1 s2) 0 1 false).
+Definition euclid_sq (mg : bool) (p : policy) (acc : acc_map) (s1 s2 : struct) : res Z :=
+  fst (do_euclid_sq mg p (world2 acc s1 s2) 0 1 false).
 
 (* the split set and the per-split edge lengths of a structure, as encode_bipartitions() sees it:
    post-order list of (split mask, (edge length, is the seed edge)) of the normalised tree *)
@@ -631,15 +641,15 @@ Definition entries_n (acc : acc_map) (s : struct) : list (Z * (option Z * bool))
   let tm := lmask acc (fst s) in
   map (fun n => (split_of (snd s) tm (fst (snd n)), snd (snd n))) (pnodes acc true (fst s)).
 
-Definition entries (acc : acc_map) (s : struct) : list (Z * (option Z * bool)) :=
-  entries_n acc (normalise s).
+Definition entries (mg : bool) (acc : acc_map) (s : struct) : list (Z * (option Z * bool)) :=
+  entries_n acc (normalise mg s).
 
-Definition splits (acc : acc_map) (s : struct) : list Z := map fst (entries acc s).
+Definition splits (mg : bool) (acc : acc_map) (s : struct) : list Z := map fst (entries mg acc s).
 
 (* length of the (first) edge carrying split m; a split that is absent, or whose edge has no
    length, counts 0 *)
-Definition split_len (acc : acc_map) (s : struct) (m : Z) : Z :=
-  match zlookup m (entries acc s) with
+Definition split_len (mg : bool) (acc : acc_map) (s : struct) (m : Z) : Z :=
+  match zlookup m (entries mg acc s) with
   | Some (Some v, _) => v
   | _ => 0
   end.
